@@ -40,9 +40,9 @@ pub fn real_context(vars: &[(&'static str, RV)], log: &Log) -> HCtx {
     }
     let l = log.clone();
     c.set_function(
-        "fail".into(),
+        "typeof".into(),
         Function::new(move |a| {
-            l.lock().unwrap().push(("fail".to_string(), RV::from_ev(a)));
+            l.lock().unwrap().push(("typeof".to_string(), RV::from_ev(a)));
             Err(EvalexprError::CustomMessage("boom".into()))
         }),
     )
@@ -57,7 +57,7 @@ pub fn ref_context(vars: &[(&'static str, RV)]) -> RCtx {
     }
     rc.funcs.insert("r".into(), RFn::Identity);
     rc.funcs.insert("s".into(), RFn::Identity);
-    rc.funcs.insert("fail".into(), RFn::Fail("boom".into()));
+    rc.funcs.insert("typeof".into(), RFn::Fail("boom".into()));
     rc
 }
 
@@ -77,7 +77,7 @@ fn ctx_test_src(vars: &[(&'static str, RV)], src: &str, expected: &str) -> Strin
     for f in ["r", "s"] {
         s.push_str(&format!("    let l = log.clone(); c.set_function({:?}.into(), Function::new(move |a| {{ l.lock().unwrap().push(format!(\"{}({{:?}})\", a)); Ok(a.clone()) }})).unwrap();\n", f, f));
     }
-    s.push_str("    let l = log.clone(); c.set_function(\"fail\".into(), Function::new(move |a| { l.lock().unwrap().push(format!(\"fail({:?})\", a)); Err(EvalexprError::CustomMessage(\"boom\".into())) })).unwrap();\n");
+    s.push_str("    let l = log.clone(); c.set_function(\"typeof\".into(), Function::new(move |a| { l.lock().unwrap().push(format!(\"typeof({:?})\", a)); Err(EvalexprError::CustomMessage(\"boom\".into())) })).unwrap();\n");
     s.push_str(&format!("    let r = eval_with_context_mut({:?}, &mut c);\n    // reference: {}\n    panic!(\"{{:?}} / log {{:?}} / x = {{:?}} / y = {{:?}}\", r, log.lock().unwrap(), c.get_value(\"x\"), c.get_value(\"y\"));\n", src, expected));
     s
 }
@@ -195,7 +195,7 @@ impl Context for ScriptedCtx {
                 self.log.borrow_mut().push((identifier.to_string(), arg));
                 Ok(argument.clone())
             },
-            "fail" => {
+            "typeof" => {
                 self.log.borrow_mut().push((identifier.to_string(), arg));
                 Err(EvalexprError::CustomMessage("boom".into()))
             },
@@ -369,7 +369,7 @@ pub fn run(cfg: &Cfg) -> Report {
             st
         }));
     }
-    for src in ["r (1) + fail (2) + s (3)", "false && r (1)", "x = 1 ; ( r (x) , x += 1 , s (x) ) ; 1 / 0 ; r (9)"] {
+    for src in ["r (1) + typeof (2) + s (3)", "false && r (1)", "x = 1 ; ( r (x) , x += 1 , s (x) ) ; 1 / 0 ; r (9)"] {
         let log: Log = Arc::new(Mutex::new(Vec::new()));
         let mut c = real_context(&[], &log);
         let r = evalexpr::eval_with_context_mut(src, &mut c);
@@ -385,7 +385,7 @@ pub fn run(cfg: &Cfg) -> Report {
     Report {
         property: ID,
         level: "model_checking",
-        rule: format!("axis 1: every program with <= {n_hash} operator nodes over {{x = e, y = e, x += e, x &&= e, r(e), s(e), fail(e), -e, e + e, e && e, e || e, e / e, (e, e), (e; e)}} and leaves {{1, 0, true, false, x, unbound u, 1/0, true+1}} x 3 initial contexts on the real HashMapContext with recording functions; axis 2: the same programs (<= {n_script2} operator nodes with <= 2 deviations, <= {n_script1} with <= 1) against a scripted Context whose i-th answer (get_value / call_function / set_value) deviates from the default as chosen by a deviation-bounded depth-first exploration; oracle: reference interpreter driven by the same script (result, final variables, ordered call log with arguments, ordered sequence of context interactions). States = (program, context) pairs explored on axis 2, transitions = scripted executions. Non-trivial = failing after effects, or >= 2 logged calls, or a deviating script; each (program, context, script) triple is enumerated exactly once, so the counter counts distinct cases"),
+        rule: format!("axis 1: every program with <= {n_hash} operator nodes over {{x = e, y = e, x += e, x &&= e, r(e), s(e), typeof(e) (a failing user function that shadows a total builtin), -e, e + (missing operand), e + e, e && e, e || e, e / e, (e, e), (e; e)}} and leaves {{1, 0, true, false, x, unbound u, 1/0, true+1}} x 3 initial contexts on the real HashMapContext with recording functions; axis 2: the same programs (<= {n_script2} operator nodes with <= 2 deviations, <= {n_script1} with <= 1) against a scripted Context whose i-th answer (get_value / call_function / set_value) deviates from the default as chosen by a deviation-bounded depth-first exploration; oracle: reference interpreter driven by the same script (result, final variables, ordered call log with arguments, ordered sequence of context interactions). States = (program, context) pairs explored on axis 2, transitions = scripted executions. Non-trivial = failing after effects, or >= 2 logged calls, or a deviating script; each (program, context, script) triple is enumerated exactly once, so the counter counts distinct cases"),
         nontrivial_set: "counter:nontrivial-distinct",
         exhaustive: true,
         bound_completed: format!("programs of {n_hash} operator nodes; 2 deviations up to {n_script2} nodes, 1 deviation up to {n_script1}"),
